@@ -1,6 +1,6 @@
 """C04 x86-64 JIT-compiled programs behave exactly like interpreted programs."""
 import astq
-from rules import aes, cgsize, genreset, jit, sshash, vmcfg, x86hsem
+from rules import aes, cgsize, genreset, jit, sshash, vmcfg, x86hsem, x86loop
 
 LEVEL = 'other'
 TECHNIQUE = ('sibling agreement between the x86 emitters and the interpreter decoder on resolved-AST feature vectors, known-bits on branch constants, decoding of byte templates, assembled-fragment constants'
@@ -22,6 +22,9 @@ EXPLANATION = ('Rules TAB-OPC (256), LW-SIB/SPLIT-SIB (30 handlers), RCP-NOOP, C
          ' X86-CBR-HSEM.')
 
 EXPLANATION += ' CG-SIZE-X86.'
+
+CLAIM += (' The end-of-iteration fragments of the hand-written x86 runtime store r0-r7 at spAddr1 before f0-f3 at spAddr0, through the stack slots the load half of the loop filled (X86-LOOPSTORE); no plain member of the compiler object is read before it has been given a value (CTOR-INIT).')
+EXPLANATION += ' X86-LOOPSTORE, CTOR-INIT.'
 
 
 def run(ctx, R):
@@ -46,3 +49,4 @@ def run(ctx, R):
     x86hsem.rule_cbranch(ctx, R)
     cgsize.rule_x86(ctx, R, FI)    # the program area holds the largest program: an overflow would overwrite the SuperscalarHash routine the light-mode loop calls
     genreset.rule_ctor_init(ctx, R, 'x86')
+    x86loop.rule_loopstore(ctx, R)
